@@ -1358,7 +1358,7 @@ impl<'a> Visitor<'a> {
                 },
                 &self.media_queries,
                 extend_rule.span,
-            );
+            )?;
         }
 
         Ok(None)
